@@ -78,7 +78,7 @@ PROPS = {
     },
     "C19": {
         "level": "proof",
-        "units": ["keys", "sampling", "lemmas_ps", "ps"], "kani": ["secret_key_scalars_nonzero_n1", "secret_key_scalars_nonzero_n2"], "kani_thorough": ["range_params_sign_each_digit"],
+        "units": ["keys", "sampling", "lemmas_ps", "ps", "za_config"], "kani": ["secret_key_scalars_nonzero_n1", "secret_key_scalars_nonzero_n2"], "kani_thorough": ["range_params_sign_each_digit"],
         "assumptions": [
             PER_INST,
             "termination of rejection-sampling loops is not proved (an all-zero RNG never terminates)",
